@@ -300,6 +300,7 @@ def run(ctx):
     _conservation_rule(ctx, repo)
     _lost_update_rule(ctx, repo)
     _tracker_reset_rule(ctx, repo)
+    _sorted_extremes_rule(ctx, repo)
 
 
 def _recursion_forwarding(ctx, repo):
@@ -830,3 +831,52 @@ def _tracker_reset_rule(ctx, repo):
         ctx.ob('C06.l', f'cirq.transformers.eject_z.eject_z.{cbf.name}:exit#{k}', bool(st), '' if st else
                f'the path leaving {cbf.name} at line {getattr(node, "lineno", cbf.lineno)} never touches `{d}`: the entry of an earlier PhasedXZ gate on these qubits stays live, and a phase '
                'dumped at the end of the circuit is folded into that gate although this operation sits in between', m.rel, getattr(node, 'lineno', cbf.lineno))
+
+
+def _sorted_extremes_rule(ctx, repo):
+    """C06.m - `a[-1] < b[0]` as a disjointness shortcut is only valid for sorted sequences."""
+    ctx.decided.append('C06.m a transformer that compares the last element of one index list with the first of another (as "these ranges cannot overlap") builds both lists with sorted()')
+    ctx.rule('C06.m', 'extremes by position: in the transformer packages, for every comparison X[-1] < Y[0] / X[-1] <= Y[0] on local lists, each value that may be bound to X and Y is a '
+             'sorted(...) call or is read from a container whose every store is a sorted(...) call', floor=1, style='TNT')
+    n = 0
+    for m, cls, fn, qual in _functions(repo):
+        if m.rel.endswith('_test.py'):
+            continue
+        cmps = [c for c in ast.walk(fn) if isinstance(c, ast.Compare) and len(c.ops) == 1 and isinstance(c.ops[0], (ast.Lt, ast.LtE))
+                and isinstance(c.left, ast.Subscript) and isinstance(c.left.value, ast.Name) and ast.unparse(c.left.slice) == '-1'
+                and isinstance(c.comparators[0], ast.Subscript) and isinstance(c.comparators[0].value, ast.Name) and ast.unparse(c.comparators[0].slice) == '0']
+        if not cmps:
+            continue
+        binds, stores = {}, {}
+        for s in ast.walk(fn):
+            if isinstance(s, ast.NamedExpr):
+                binds.setdefault(s.target.id, []).append(s.value)
+            if isinstance(s, ast.Assign):
+                for t in s.targets:
+                    if isinstance(t, ast.Name):
+                        binds.setdefault(t.id, []).append(s.value)
+                    if isinstance(t, ast.Subscript) and isinstance(t.value, ast.Name):
+                        stores.setdefault(t.value.id, []).append(s.value)
+
+        def is_sorted_value(v, depth=0):
+            if isinstance(v, ast.Call) and call_name(v) == 'sorted':
+                return True
+            cont = None
+            if isinstance(v, ast.Subscript) and isinstance(v.value, ast.Name):
+                cont = v.value.id
+            if isinstance(v, ast.Call) and isinstance(v.func, ast.Attribute) and v.func.attr == 'get' and isinstance(v.func.value, ast.Name):
+                cont = v.func.value.id
+            if cont is not None and stores.get(cont) and depth < 3:
+                return all(is_sorted_value(x, depth + 1) for x in stores[cont])
+            return False
+        for c in cmps:
+            for side in (c.left.value.id, c.comparators[0].value.id):
+                n += 1
+                vals = binds.get(side, [])
+                ok = bool(vals) and all(is_sorted_value(v) for v in vals)
+                bad = next((v for v in vals if not is_sorted_value(v)), None)
+                ctx.ob('C06.m', f'{qual}:{side}', ok, '' if ok else
+                       f'`{ast.unparse(c)}` treats `{side}` as sorted, but it can be bound to `{ast.unparse(bad)[:60] if bad is not None else "?"}`: for an operation whose qubits are listed in '
+                       'descending order two operations that share a qubit are classed as disjoint and swapped without a commutation check', m.rel, c.lineno)
+    if n == 0:
+        raise AnalysisError('C06.m: no last-vs-first comparison left in the transformer packages')
